@@ -11,7 +11,8 @@ RULE = ("shapes of every kind (triangles, non-convex polygons, holes, several co
         "IntegrateJordan.vertical/area; exact polygons are integrated, moved / scaled in place and integrated again; non-trivial = not an axis-parallel rectangle centred at the origin; "
         "distinct = SHA-1 of the case")
 PROOF_STATUS = ("Props/C04.v: moment = moment_spec (formal trapezoid integrals) for all polygonal shapes of all kinds, "
-                "a+b <= 14; Newton-Cotes exactness up to 19 nodes; area = shoelace; reversal negates")
+                "a+b <= 14; Newton-Cotes exactness up to 19 nodes; area = shoelace; reversal negates; curved segments of degree d: "
+                "the rule is exact whenever (d-1)(a+1+b) <= 3 (area for d <= 5, order <= 2 for quadratics), witnesses of inexactness beyond")
 
 
 def cases(ctx):
@@ -41,7 +42,7 @@ def cases(ctx):
             mid = [((1 - F(t, d)) * a_[0] + F(t, d) * b_[0] + F(rng.randint(-4, 4), 4),
                     (1 - F(t, d)) * a_[1] + F(t, d) * b_[1] + F(rng.randint(-4, 4), 4)) for t in range(1, d)]
             j.append([a_] + mid + [b_])
-        for (a, b) in [(0, 0), (1, 0), (0, 1), (1, 1), (2, 0)]:
+        for (a, b) in [(0, 0), (1, 0), (0, 1), (1, 1), (2, 0), (0, 2), (3, 0), (1, 2)]:
             yield {"shape": ("S", j), "a": a, "b": b, "num": "frac", "curved": True}
 
 
@@ -90,8 +91,19 @@ def check(ctx, case):
         if ri[0] != "ok" or not U.num_same(ri[1], spec, exact):
             fails.append(Fail(kind="O", what="polynomial(S,a,b) is not the integral of x^a y^b", impl=ri, expected=spec))
     else:
-        # curved: area exact (up to rounding); higher moments to quadrature accuracy
-        tol = 0 if (a + b == 0) else F(1, 100)
+        # curved: area exact (up to rounding); higher moments to quadrature accuracy -- and exact too wherever theorem
+        # C04_curved_moments applies: (degree - 1) * (a + 1 + b) <= 3 on every segment (order <= 2 on quadratics)
+        dmax = max(len(sg) - 1 for j in O.shape_jordans(sex) for sg in j)
+        covered = (dmax - 1) * (a + 1 + b) <= 3
+        ctx.count("curved: theorem C04_curved_moments " + ("applies (exact value required)" if covered else "does not apply (quadrature accuracy)"))
+        tol = 0 if covered else F(1, 100)
+        # correspondence: the model integrates curved segments of every degree with the same rule
+        pm = ctx.model.moment(sex, a, b)
+        ctx.k_cases += 1
+        if ri[0] == "ok" and ri[1] == pm:
+            ctx.k_agreed += 1
+        else:
+            fails.append(Fail(kind="K", what="curved: polynomial(S,a,b) differs from model moment", impl=ri, model=pm))
         ok = ri[0] == "ok" and (ri[1] == spec if tol == 0 else abs(ri[1] - spec) <= tol * max(abs(spec), 1))
         if not ok:
             fails.append(Fail(kind="O", what="curved: polynomial(S,a,b) off the exact integral", impl=ri, expected=spec))
